@@ -21,23 +21,23 @@ import (
 
 // Job describes one harness run (one exploration with its own solver).
 type Job struct {
-	ID                 string `json:"id"`     // unique job name
-	Pkg                string `json:"pkg"`    // package path of the harness
-	Func               string `json:"func"`   // harness function
-	Unwind             int    `json:"unwind"` // loop unwinding bound per frame (0 = none)
-	Steps              int    `json:"steps"`  // instruction budget per path
-	MaxPaths           int    `json:"max_paths"`
-	PanicsOK           bool   `json:"panics_ok"`
-	Shard              int    `json:"shard"`
-	NShards            int    `json:"nshards"`
-	Timeout            int    `json:"solver_timeout_ms"`
-	Threads            bool   `json:"threads"`
-	Switches           int    `json:"max_switches"`
-	MaxEnum            int    `json:"max_enum"`
-	Solver             string `json:"solver"`
-	Seed               uint64 `json:"seed"`
-	StopAfterViolation int    `json:"stop_after_violation"`
-	MaxWallS           int    `json:"max_wall_s"`
+	ID                 string         `json:"id"`     // unique job name
+	Pkg                string         `json:"pkg"`    // package path of the harness
+	Func               string         `json:"func"`   // harness function
+	Unwind             int            `json:"unwind"` // loop unwinding bound per frame (0 = none)
+	Steps              int            `json:"steps"`  // instruction budget per path
+	MaxPaths           int            `json:"max_paths"`
+	PanicsOK           bool           `json:"panics_ok"`
+	Shard              int            `json:"shard"`
+	NShards            int            `json:"nshards"`
+	Timeout            int            `json:"solver_timeout_ms"`
+	Threads            bool           `json:"threads"`
+	Switches           int            `json:"max_switches"`
+	MaxEnum            int            `json:"max_enum"`
+	Solver             string         `json:"solver"`
+	Seed               uint64         `json:"seed"`
+	StopAfterViolation int            `json:"stop_after_violation"`
+	MaxWallS           int            `json:"max_wall_s"`
 	Params             map[string]int `json:"params"` // values of zz.Param (bounds a tier may raise)
 }
 
